@@ -927,8 +927,19 @@ def emit_fn(f, udir, unit_props, recs, log_global):
         base.pop("tail", None)
         f = base
     src = get_src(f["source"])
-    loc = src.find_fn(f["name"], f.get("impl"), f.get("nth", 0))
+    if f.get("nested_in"):
+        # R-hoist: a fn item nested in another fn's body captures nothing; it is emitted as a free function of the same text
+        loc = src.find_fn(f["name"], None, f.get("nth", 0), nested_in=(f["nested_in"]["name"], f["nested_in"].get("impl")))
+    else:
+        loc = src.find_fn(f["name"], f.get("impl"), f.get("nth", 0))
     sig, body = loc["sig"], loc["body"]
+    cuts = []
+    for hn in f.get("hoisted", []):
+        # R-hoist (other half): the nested fn items emitted separately are cut out of this body
+        h = src.find_fn(hn, None, 0, nested_in=(f["name"], f.get("impl")))
+        cuts.append((h["start"] - loc["body_open"], h["body_close"] + 1 - loc["body_open"], hn))
+    for (a, b, hn) in sorted(cuts, reverse=True):
+        body = body[:a] + "/* nested fn %s hoisted */" % hn + body[b:]
     rec = FnRec()
     rec.id = fn_id(f)
     rec.mode = f.get("mode", "prove")
